@@ -110,7 +110,11 @@ type c04Cfg struct {
 	// PodGroup can then be created again: a NEW gang, whose group has not been satisfied yet) and rewrites the PodGroup's
 	// gang-groups annotation (couples it with a gang ns/GX that never exists, and back): seed C04-6
 	teardown bool
-	depth    int // 0: the tier's default
+	// earlyDelete (teardown): a PodGroup may also be deleted while pods of its gang still exist - even while they wait at
+	// Permit (seed C04-7: the strict-mode rejection then has to find them through the framework's waiting pods, the gang
+	// is no longer in the cache)
+	earlyDelete bool
+	depth       int // 0: the tier's default
 }
 
 // c04PG: what the informer has delivered about a gang's PodGroup object (CRD configurations)
@@ -175,7 +179,12 @@ type c04Sys struct {
 	pods     map[string]*c04Pod
 	everHeld map[string]bool // gang group satisfied once: some member was bound (reference)
 	pgs      map[string]*c04PG
-	last     string
+	// orph: the gang's PodGroup was deleted while pods of the gang still existed. What such pods are to the scheduler the
+	// statement does not say: they are outside the partition / release clauses and are not scheduled again, until the last
+	// of them is gone. They can still sit in the framework's waiting map and then ARE waiting members of the group when
+	// another (defined) member fails in strict mode.
+	orph map[string]bool
+	last string
 }
 
 // minOf: the gang's current minimum (the PodGroup's minMember in the CRD configurations)
@@ -261,7 +270,7 @@ func c04NewSys(cfg *c04Cfg, ops []c04Op) *c04Sys {
 		ch = c04CacheHandle{}
 	}
 	mgr := &PodGroupManager{cache: NewGangCache(args, nil, nil, nil, ch), args: args, handle: h}
-	s := &c04Sys{cfg: cfg, ops: ops, mgr: mgr, h: h, pods: map[string]*c04Pod{}, everHeld: map[string]bool{}, pgs: map[string]*c04PG{}}
+	s := &c04Sys{cfg: cfg, ops: ops, mgr: mgr, h: h, pods: map[string]*c04Pod{}, everHeld: map[string]bool{}, pgs: map[string]*c04PG{}, orph: map[string]bool{}}
 	for _, g := range cfg.gangs {
 		s.pgs[g.Name] = &c04PG{min: g.Min}
 		for _, pn := range g.Pods {
@@ -335,7 +344,7 @@ func (s *c04Sys) unreserve(p *c04Pod, check bool, why string) []mc.Violation {
 			}
 		}
 		// (a pod that was deleted while it waited is no member any more: its late Unreserve is outside the clause)
-		if p.st != c04DeletedHolding && s.modeOf(p.gang) == extension.GangModeStrict && !(s.cfg.policy == extension.GangMatchPolicyOnceSatisfied && groupSatisfiedBefore) {
+		if p.st != c04DeletedHolding && !s.orph[p.gang] && s.modeOf(p.gang) == extension.GangModeStrict && !(s.cfg.policy == extension.GangMatchPolicyOnceSatisfied && groupSatisfiedBefore) {
 			for n := range waitingBefore {
 				if n != p.name && !rejected[n] {
 					viol = append(viol, s.v("strict-no-reject|"+why, fmt.Sprintf("strict group not yet satisfied: member %s rolled back (%s) but waiting member %s was not rejected", p.name, why, n)))
@@ -428,7 +437,7 @@ func c04BuildOps(cfg *c04Cfg) []c04Op {
 				}},
 			c04Op{name: "scheduler.permit(" + pn + ")",
 				// (PreFilter fails for a member of a gang that is not initialised: no Reserve/Permit before the PodGroup arrived)
-				enabled: func(s *c04Sys) bool { return s.pods[pn].st == c04Pending && s.defined(s.pods[pn].gang) },
+				enabled: func(s *c04Sys) bool { return s.pods[pn].st == c04Pending && s.defined(s.pods[pn].gang) && !s.orph[s.pods[pn].gang] },
 				apply: func(s *c04Sys, check bool) []mc.Violation {
 					var viol []mc.Violation
 					p := s.pods[pn]
@@ -504,7 +513,7 @@ func c04BuildOps(cfg *c04Cfg) []c04Op {
 					return nil
 				}},
 			c04Op{name: "scheduler.unschedulable(" + pn + ")", // AfterPostFilter: a pending member failed scheduling
-				enabled: func(s *c04Sys) bool { return s.pods[pn].st == c04Pending && s.defined(s.pods[pn].gang) },
+				enabled: func(s *c04Sys) bool { return s.pods[pn].st == c04Pending && s.defined(s.pods[pn].gang) && !s.orph[s.pods[pn].gang] },
 				apply: func(s *c04Sys, check bool) []mc.Violation {
 					var viol []mc.Violation
 					p := s.pods[pn]
@@ -518,7 +527,7 @@ func c04BuildOps(cfg *c04Cfg) []c04Op {
 					for _, n := range s.h.rejectLog {
 						rejected[n] = true
 					}
-					if check && s.modeOf(p.gang) == extension.GangModeStrict && !(s.cfg.policy == extension.GangMatchPolicyOnceSatisfied && s.everHeld["g"]) {
+					if check && !s.orph[p.gang] && s.modeOf(p.gang) == extension.GangModeStrict && !(s.cfg.policy == extension.GangMatchPolicyOnceSatisfied && s.everHeld["g"]) {
 						for n := range waitingBefore {
 							if !rejected[n] {
 								viol = append(viol, s.v("strict-no-reject|unschedulable", fmt.Sprintf("strict group not yet satisfied: member %s is unschedulable but waiting member %s was not rejected", pn, n)))
@@ -575,7 +584,8 @@ func c04BuildOps(cfg *c04Cfg) []c04Op {
 			if cfg.teardown {
 				ops = append(ops,
 					c04Op{name: "informer.pgRegroup(" + g.Name + ")", // annotation-only update: the gang-groups annotation gains / loses ns/GX
-						enabled: func(s *c04Sys) bool { return s.pgs[g.Name].present },
+						// (single-gang configurations only: with several gangs a one-sided rewrite leaves "the group" ill-defined)
+						enabled: func(s *c04Sys) bool { return s.pgs[g.Name].present && len(s.cfg.gangs) == 1 },
 						apply: func(s *c04Sys, check bool) []mc.Violation {
 							pg := s.pgs[g.Name]
 							pg.regrouped = !pg.regrouped
@@ -589,6 +599,9 @@ func c04BuildOps(cfg *c04Cfg) []c04Op {
 							if !s.pgs[g.Name].present {
 								return false
 							}
+							if s.cfg.earlyDelete {
+								return true
+							}
 							for _, pn := range g.Pods {
 								if s.pods[pn].st != c04Absent {
 									return false
@@ -600,6 +613,11 @@ func c04BuildOps(cfg *c04Cfg) []c04Op {
 							pg := s.pgs[g.Name]
 							s.mgr.cache.onPodGroupDelete(pg.obj)
 							pg.present, pg.regrouped, pg.obj = false, false, nil
+							for _, pn := range g.Pods {
+								if s.pods[pn].st != c04Absent {
+									s.orph[g.Name] = true
+								}
+							}
 							// the whole gang group is gone: whatever comes under these names next is a new group, not yet satisfied
 							gone := true
 							for _, og := range s.cfg.gangs {
@@ -651,6 +669,21 @@ func (s *c04Sys) Apply(op int, check bool) (bool, []mc.Violation) {
 	}
 	viol := o.apply(s, check)
 	s.last = o.name
+	for gn := range s.orph { // an orphaned gang is over when its last pod is gone
+		gone := true
+		for _, g := range s.cfg.gangs {
+			if g.Name == gn {
+				for _, pn := range g.Pods {
+					if s.pods[pn].st != c04Absent {
+						gone = false
+					}
+				}
+			}
+		}
+		if gone {
+			delete(s.orph, gn)
+		}
+	}
 	return true, viol
 }
 
@@ -659,6 +692,9 @@ func (s *c04Sys) Invariants() []mc.Violation {
 	after := strings.SplitN(s.last, "(", 2)[0]
 	sums := s.mgr.GetGangSummaries()
 	for _, g := range s.cfg.gangs {
+		if s.orph[g.Name] {
+			continue
+		}
 		sm := sums["ns/"+g.Name]
 		alive := 0
 		for _, pn := range g.Pods {
@@ -728,7 +764,7 @@ func (s *c04Sys) Key() string {
 		wn = append(wn, fmt.Sprintf("%s:%v:%v", n, w.allowed, w.rejected))
 	}
 	sort.Strings(wn)
-	return c04Dumper.Digest(s.mgr.cache.gangItems, s.mgr.cache.gangGroupInfoMap, s.stateString(), strings.Join(wn, ","), fmt.Sprint(s.everHeld["g"]), s.staleString(), s.pgString())
+	return c04Dumper.Digest(s.mgr.cache.gangItems, s.mgr.cache.gangGroupInfoMap, s.stateString(), strings.Join(wn, ","), fmt.Sprint(s.everHeld["g"]), s.staleString(), s.pgString(), fmt.Sprint(mc.SortedKeys(s.orph)))
 }
 
 func (s *c04Sys) staleString() string {
@@ -779,6 +815,10 @@ func c04Configs(env *mc.Env) []*c04Cfg {
 	two := []c04GangDef{{"G1", 2, []string{"a", "b"}}}
 	cfgs = append(cfgs, &c04Cfg{name: "crd-teardown|1gang-min2-2pods|" + extension.GangModeStrict + "|" + extension.GangMatchPolicyOnceSatisfied,
 		mode: extension.GangModeStrict, policy: extension.GangMatchPolicyOnceSatisfied, gangs: two, crd: true, teardown: true, depth: env.Pick(14, 16)})
+	// a PodGroup deleted while members of its gang still wait
+	cfgs = append(cfgs, &c04Cfg{name: "crd-early-delete|2gangs-min1+min2|" + extension.GangModeStrict + "|" + extension.GangMatchPolicyWaitingAndRunning,
+		mode: extension.GangModeStrict, policy: extension.GangMatchPolicyWaitingAndRunning, gangs: []c04GangDef{{"G1", 1, []string{"a"}}, {"G2", 2, []string{"b", "c"}}},
+		crd: true, teardown: true, earlyDelete: true, depth: env.Pick(8, 10)})
 	if env.Thorough() {
 		cfgs = append(cfgs, &c04Cfg{name: "crd-teardown|1gang-min2-2pods|" + extension.GangModeStrict + "|" + extension.GangMatchPolicyWaitingAndRunning,
 			mode: extension.GangModeStrict, policy: extension.GangMatchPolicyWaitingAndRunning, gangs: two, crd: true, teardown: true, depth: 14})
